@@ -398,7 +398,15 @@ pub fn cases_c05(rng: &mut Rng, thorough: bool) -> Vec<Case> {
     // rejected descriptions: s too large, resolution out of range
     for _ in 0..(200 * per) {
         let res = if rng.chance(1, 2) { rng.range_i(2, 29) as i32 } else { extreme_res(rng) };
-        let s = if rng.chance(1, 2) { max_s(res.clamp(2, 29)) + rng.below(3) } else { rng.next() };
+        let rc = res.clamp(2, 29);
+        let bits = 2 * (rc - 1) as u32;
+        let s = match rng.below(4) {
+            0 => max_s(rc) + rng.below(3),
+            // far beyond the end of the curve, in particular with the bits that a shift into place would drop
+            1 => gen_s(rc, rng) | (1 + rng.below(7)).checked_shl(bits + 6).unwrap_or(0).max(max_s(rc)),
+            2 => max_s(rc).checked_shl(rng.below(64 - bits as u64) as u32).unwrap_or(u64::MAX),
+            _ => rng.next(),
+        };
         v.push(Case::serialize(rng.below(12) as u8, rng.below(5) as usize, s, res));
     }
     // malformed stream through deserialize / get_resolution
